@@ -12,7 +12,7 @@ decompile() is called on the real function / generator object and the result is 
       text; a twin with permuted free names (equal bytecode, different names).
 An exception from decompile() is a loud rejection and accepted.
 """
-import ast, copy, itertools
+import ast, copy, itertools, zlib
 
 META = {
     'level': 'exploration',
@@ -34,7 +34,10 @@ META = {
             'forms lambda / (e for a in T) / (a for a in T if e) (quick N=7, thorough N=8), in 14 further forms (closure '
             'scope, element+condition, two conditions, two for-clauses, nested generators, tuple target; quick N=5, '
             'thorough N=6) and over an extended operator set (is None, in, unary -, subscript, chained comparison, keyword '
-            'call, tuple; quick N=4, thorough N=5). Random part: expressions of 6-34 nodes over the full grammar in all '
+            'call, tuple; quick N=4, thorough N=5). `is None` family: every and/or/not tree with <= 4 (thorough 6) nodes over '
+            '{x is None, y is not None, comparisons} in 20 positions (condition, element value, lambda body, test of a '
+            'conditional expression in element / condition / lambda, comparison operand). Large part: and/or chains and '
+            'trees of 18-300 comparison operands in 7 styles (code objects that need EXTENDED_ARG). Random part: expressions of 6-34 nodes over the full grammar in all '
             'forms; fixed corpus of 94 hand-written realistic queries x 2 scopes. Distinct = distinct (scope, query text); '
             'non-trivial = the query has at least 4 (lambda) / 6 (generator) nodes.',
     'assumptions': ['CPython 3.12 bytecode (the interpreter under /venv); other versions compile differently and are not covered',
@@ -54,6 +57,7 @@ K4 = 'C03-CHAINED-COMPARE-IN-GENERATOR'
 K5 = 'C03-CONSTANT-OPERAND-IN-CONDITION'
 K6 = 'C03-STAR-ARGS-CALL'
 K7 = 'C03-LAMBDA-CELL-PARAM-WITH-FREEVARS'
+K8 = 'C03-DEEP-ANDOR-NESTING-IN-IF'
 
 # --------------------------------------------------------------------------
 # query forms.  {e} is always wrapped in parentheses (parentheses never change the code object).
@@ -317,6 +321,66 @@ def shape_lambda_cell_param(qtree, scope, outer_free=()):
     return visit(qtree, set(outer_free) if scope == 'closure' else set())
 
 
+def andor_depth(n, neg=False):
+    """(depth, top operator) of the and/or alternation of a condition: `not` is pushed inwards (it flips the
+    operator), directly nested equal operators merge.  a -> 0; a and b -> 1; a and (b or c) -> 2; ..."""
+    if isinstance(n, ast.UnaryOp) and isinstance(n.op, ast.Not): return andor_depth(n.operand, not neg)
+    if not isinstance(n, ast.BoolOp): return 0, None
+    op = 'and' if isinstance(n.op, ast.And) != neg else 'or'
+    d = 1
+    for v in n.values:
+        dv, ov = andor_depth(v, neg)
+        d = max(d, dv if ov == op else dv + 1)
+    return d, op
+
+
+def shape_deep_andor_in_if(qtree):
+    """K8: the condition of one for-clause of a generator (all its `if`s together, i.e. joined by `and`) nests and/or
+    alternately at least 5 levels deep, e.g. `a and ((b or (c and d)) and e or f)`."""
+    for g in generators_of(qtree):
+        for comp in g.generators:
+            if comp.ifs and andor_depth(conj(comp.ifs))[0] >= 5: return True
+    return False
+
+
+def conj(ifs):
+    if not ifs: return ast.Constant(value=True)
+    if len(ifs) == 1: return ifs[0]
+    return ast.BoolOp(op=ast.And(), values=list(ifs))
+
+
+def _none_test_in_jump_context(test):
+    """Does `test`, compiled as a branch condition, contain an `x is None` / `x is not None` check that becomes a
+    POP_JUMP_IF_(NOT_)NONE instruction (reached through and/or/not/nested conditional expressions only)?"""
+    if isinstance(test, ast.BoolOp): return any(_none_test_in_jump_context(v) for v in test.values)
+    if isinstance(test, ast.UnaryOp) and isinstance(test.op, ast.Not): return _none_test_in_jump_context(test.operand)
+    if isinstance(test, ast.IfExp):
+        return any(_none_test_in_jump_context(x) for x in (test.test, test.body, test.orelse))
+    return isinstance(test, ast.Compare) and len(test.ops) == 1 and isinstance(test.ops[0], (ast.Is, ast.IsNot)) \
+        and isinstance(test.comparators[0], ast.Constant) and test.comparators[0].value is None
+
+
+def shape_none_jump_in_yield_part(qtree):
+    """LOUD-ONLY sub-shape (not a finding): a conditional expression whose test branches on `is None` / `is not
+    None`, located in the part of a code object after its last loop condition - the element of a generator
+    expression or the body of a lambda (outermost or nested).  decompiling.py conditional_jump_none_impl asserts
+    `pos < conditions_end` there, so on the unchanged tree every such query is rejected (AssertionError).  The
+    known-finding shapes for conditional expressions therefore do NOT cover it: a wrong tree here is a violation."""
+    def walk(n, in_yield_part):
+        if isinstance(n, ast.GeneratorExp):
+            if walk(n.generators[0].iter, in_yield_part): return True     # evaluated by the enclosing code object
+            if walk(n.elt, True): return True
+            for i, comp in enumerate(n.generators):
+                parts = [comp.target] + comp.ifs + ([comp.iter] if i else [])
+                if any(walk(x, False) for x in parts): return True
+            return False
+        if isinstance(n, ast.Lambda):
+            return walk(n.body, True) or any(walk(d, in_yield_part) for d in n.args.defaults)
+        if isinstance(n, ast.IfExp) and in_yield_part and _none_test_in_jump_context(n.test): return True
+        return any(walk(ch, in_yield_part) for ch in ast.iter_child_nodes(n))
+    return walk(qtree, False)
+
+
 def shape_boolop_in_compare(qtree):
     """K2: and/or as a direct operand of a comparison, in value context inside a generator `if`."""
     return any(isinstance(p, ast.Compare) for _, p in value_boolops_in_if(qtree))
@@ -443,12 +507,6 @@ def sem_equal(G, n1, n2, truth_only):
     return True, None
 
 
-def conj(ifs):
-    if not ifs: return ast.Constant(value=True)
-    if len(ifs) == 1: return ifs[0]
-    return ast.BoolOp(op=ast.And(), values=list(ifs))
-
-
 def loop_structure(G, src_gen, dec_gen):
     """(c): compare for-clauses of the decompiled GeneratorExp with those of ast.parse(source)."""
     if not isinstance(dec_gen, ast.GeneratorExp): return 'decompiled root is %s, not GeneratorExp' % type(dec_gen).__name__
@@ -544,7 +602,7 @@ def judge(ctx, G, decompile, case, do_cache=True):
     return 'agree', None
 
 
-KNOWN_ORDER = (K7, K6, K4, K1, K1L, K2, K3, K5)
+KNOWN_ORDER = (K7, K6, K4, K1, K1L, K2, K3, K5, K8)
 
 
 def classify(qtree, scope, outer_free=()):
@@ -558,6 +616,7 @@ def classify(qtree, scope, outer_free=()):
     if shape_boolop_in_compare(qtree): shapes.append(K2)
     if shape_boolop_value_in_if(qtree): shapes.append(K3)
     if shape_constant_operand_in_condition(qtree): shapes.append(K5)
+    if shape_deep_andor_in_if(qtree): shapes.append(K8)
     return shapes
 
 
@@ -572,13 +631,19 @@ def run_case(ctx, G, decompile, query_src, scope, label, origin, e=None):
     ctx.count('cases.' + origin)
     ctx.count('form.' + label)
     shapes = classify(case.qtree, scope, case.free + case.iters)
+    loud_only = shape_none_jump_in_yield_part(case.qtree)
+    if loud_only:
+        # always rejected on the unchanged tree, so no listed finding can explain a silent failure here
+        shapes = []
+        ctx.count('loud_only_shape.cases')
     if shapes: ctx.count('known_shape_cases')
     else: ctx.count('checked_cases')
     try:
-        outcome, detail = judge(ctx, G, decompile, case, do_cache=(origin == 'corpus' or ctx.evaluations % 3 == 0))
+        outcome, detail = judge(ctx, G, decompile, case, do_cache=(origin in ('corpus', 'large') or zlib.crc32(query_src.encode()) % 3 == 0))
     except RecursionError:
         outcome, detail = 'unsupported', 'RecursionError'
     ctx.count('outcome.' + outcome)
+    if loud_only: ctx.count('loud_only_shape.' + outcome)
     if outcome in ('agree', 'loud', 'unsupported'):
         if shapes and outcome == 'agree': ctx.count('known_shape_cases_that_agree')
         if not shapes and outcome == 'agree': ctx.count('checked_cases_that_agree')
@@ -698,13 +763,18 @@ lambda p: p.a if p.b else x
 (f(*x) for x in T)
 lambda p: a and (not (b if c else d))
 lambda p: (p, b, c, (p for z in T if c))
+(x for x in T if a and ((b or (c and d)) and e or f))
+(p.name if p.nick is None or p.age > 60 else p.nick for p in T)
+(p for p in T if p.nick is None or p.age > lim and p.boss is not None)
+lambda p: p.a is None and (p.b is not None or p.c == x) and not p.d is None
+(p for p in T if (p.a is None or p.b == x) and (p.c is not None or p.d != y) and (p.e is None or p.f < z))
 """
 
 
 def plan(tier):
     if tier == 'quick':
-        return dict(basic_n=7, other_n=5, ext_n=4, random=5000, rmin=6, rmax=26)
-    return dict(basic_n=8, other_n=6, ext_n=5, random=140000, rmin=6, rmax=34)
+        return dict(basic_n=7, other_n=5, ext_n=4, random=3000, rmin=6, rmax=26, none_n=4, none_atoms=3, large_reps=4)
+    return dict(basic_n=8, other_n=6, ext_n=5, random=120000, rmin=6, rmax=34, none_n=6, none_atoms=4, large_reps=40)
 
 
 def exhaustive_cases(G, p):
@@ -719,6 +789,39 @@ def exhaustive_cases(G, p):
             e = G.instantiate(sh)
             for form in ('lam', 'elt', 'if', 'if_c', 'lam_c', 'if_for2'):
                 yield form, e, 'exhaustive_extended_ops'
+
+
+NONE_POSITIONS = (   # (form, template for the expression slot of the form; {c} = the condition)
+    ('lam', '{c}'), ('lam_c', '{c}'), ('if', '{c}'), ('if_c', '{c}'), ('if_if', '{c}'), ('if_for2', '{c}'),
+    ('nest_if', '{c}'), ('for2_if', '{c}'), ('elt', '{c}'), ('elt_if', '{c}'), ('lam_nest', '{c}'),
+    ('elt', 'a.p if ({c}) else d'), ('elt_if', 'a.p if ({c}) else d'), ('elt_c', 'b if ({c}) else a.q'),
+    ('lam', 'a.p if ({c}) else d'), ('if', 'a.p if ({c}) else d'), ('nest_elt', 'y if ({c}) else d'),
+    ('elt', '({c}) == d'), ('lam', '(({c}) and a.q > d) or c'), ('if', 'a.q > d and ({c})'),
+)
+
+
+def none_family_cases(G, p):
+    """`is None` / `is not None` tests in every position: alone, under and/or/not, combined with comparisons, as
+    condition, as element value, as test of a conditional expression in element / condition / lambda."""
+    for cond in G.none_conditions(p['none_n'], p['none_atoms']):
+        for form, tmpl in NONE_POSITIONS:
+            yield form, tmpl.format(c=cond), 'none_family'
+
+
+LARGE_STYLES = ('or', 'and', 'and_of_or', 'or_of_and', 'mixed', 'not_groups', 'arith')
+LARGE_FORMS = ('lam', 'if', 'elt', 'lam_c', 'if_c', 'if_for2', 'elt_if', 'nest_if')
+
+
+def large_cases(G, rng, p):
+    """Long and/or chains and other big expressions: code objects whose jumps, names and constants need
+    EXTENDED_ARG.  Sizes and styles are drawn from rng; every style x basic form occurs at least once."""
+    k = 0
+    for rep in range(p['large_reps']):
+        for style in LARGE_STYLES:
+            for form in (BASIC if rep == 0 else (LARGE_FORMS[(k + rep) % len(LARGE_FORMS)],)):
+                k += 1
+                n = rng.choice((18, 22, 26, 30, 40, 60)) if rng.random() < 0.85 else rng.choice((140, 300))
+                yield form, G.large_expr(rng, n, style), 'large'
 
 
 def random_opts(G, rng, form):
@@ -749,7 +852,9 @@ def run(ctx):
             idx += 1
             if idx % ctx.nshards != ctx.shard: continue
             run_case(ctx, G, decompile, line.strip(), scope, 'corpus', 'corpus')
-    for form, e, origin in exhaustive_cases(G, p):
+    import itertools as _it
+    big = large_cases(G, ctx.subrng('large'), p)          # same list in every shard; sliced by index
+    for form, e, origin in _it.chain(big, none_family_cases(G, p), exhaustive_cases(G, p)):
         idx += 1
         if idx % ctx.nshards != ctx.shard: continue
         run_case(ctx, G, decompile, FORMS[form]['src'].format(e=e), FORMS[form]['scope'], form, origin, e)
@@ -772,7 +877,11 @@ def run(ctx):
         K4: 'chained comparison inside a generator expression',
         K5: 'and/or in a generator `if` with an operand of compile-time-known truthiness',
         K6: 'call with *args anywhere in the query',
+        K8: 'condition of a for-clause with and/or alternation nested 5 or more levels deep',
         K7: 'a lambda (query or nested) that reads an enclosing function-scope variable and whose parameter is captured by a nested generator/lambda'}
+    ctx.extra['loud_only_shape'] = ('conditional expression branching on `is None`/`is not None` in a generator element or '
+                                    'lambda body: rejected (AssertionError) by the unchanged tree; any silent failure there is '
+                                    'a violation, the IfExp findings do not apply')
     ctx.extra['note'] = ('known_shape_cases = cases whose SOURCE lies in a listed shape (reduced power: a failure there is '
                          'attributed to the first listed shape); checked_cases = all others (any failure is a violation)')
     scale = 1.0 / ctx.nshards
@@ -781,6 +890,8 @@ def run(ctx):
     ctx.floor('checked_cases_that_agree', int((20000 if q else 80000) * scale))
     ctx.floor('monitor.environments', int((80000 if q else 400000) * scale))
     ctx.floor('monitor.loop_structures_compared', int((10000 if q else 50000) * scale))
+    ctx.floor('cases.large', int((30 if q else 400) * scale))
+    ctx.floor('cases.none_family', int((1000 if q else 40000) * scale))
     ctx.floor('cache.renamed_twins', int((4000 if q else 8000) * scale))
 
 
